@@ -210,7 +210,7 @@ def gen_cases(rng, tier, k):
     for _ in range(ng):                          # one-shot expansion
         v, e = gen_graph(rng, contig, zero)
         d = rng.choice([0, 1, 2, 2, 3, 3, 4, 5, 6, 6])
-        cases.append(([graph_line(v, e), "exp %d" % d], "expansion"))
+        cases.append(([graph_line(v, e), ("reexp %d" if rng.random() < 0.25 else "exp %d") % d], "expansion"))
     for _ in range(ng):                          # blockers
         v, e = gen_graph(rng, contig, zero)
         d = rng.choice([0, 1, 2, 2, 3, 3, 4, 5, 6, 6])
@@ -289,13 +289,15 @@ def simplices(s):
 def run_both(drv, orc, cases):
     groups = [("G 1", list(ops)) for ops in cases]
     obs = core.run_grouped_parallel(drv, groups, nchunks=4)
-    exp = core.run_grouped_parallel(orc, groups, nchunks=4)
+    # "reexp d" (expand, remove the simplices of dimension >= 2 again, expand) must give what "exp d" gives: the model is asked "exp d"
+    ogroups = [(h, [("exp" + l[5:]) if l.startswith("reexp ") else l for l in ops]) for (h, ops) in groups]
+    exp = core.run_grouped_parallel(orc, ogroups, nchunks=4)
     return [(o[1], e[1]) for o, e in zip(obs, exp)]
 
 
 def opname(line):
     w = line.split()
-    return {"graph": "insert_graph", "exp": "expansion", "blk": "expansion_with_blockers", "vtx": "insert_edge_as_flag(vertex)",
+    return {"graph": "insert_graph", "exp": "expansion", "reexp": "expansion (after removals)", "blk": "expansion_with_blockers", "vtx": "insert_edge_as_flag(vertex)",
             "edge": "insert_edge_as_flag(edge)", "mfnd": "make_filtration_non_decreasing", "chk": "final-state",
             "ripsp": "Rips_complex(points)", "ripsm": "Rips_complex(matrix)"}.get(w[0] if w else "", "?")
 
@@ -333,7 +335,7 @@ def first_violation(ops, cpp, orc, res=None):
             sp = fields("x " + spec)
             ss = simplices(sp.get("S"))
             if cs != ss or ca.get("dim") != sp.get("dim"):
-                d = int(w[1]) if w[0] in ("exp", "blk", "ripsp", "ripsm") else None
+                d = int(w[1]) if w[0] in ("exp", "reexp", "blk", "ripsp", "ripsm") else None
                 if d is not None and d <= 0 and has_edges and a == model:
                     kind = KIND_DIM0
                     what = ("%s with max_dim = %d leaves the edges of the graph in the complex (the clique complex of dimension <= 0 has vertices only)" % (opn, d))
@@ -369,7 +371,7 @@ def first_violation(ops, cpp, orc, res=None):
             res.evaluations += 1
             res.traces_validated += 1
             res.count("op:" + opn)
-            if w[0] in ("exp", "blk", "ripsp", "ripsm", "chk"):
+            if w[0] in ("exp", "reexp", "blk", "ripsp", "ripsm", "chk"):
                 res.count("result-dimension:%s" % ca.get("dim"))
                 res.count("max_dim:%s" % w[1])
             if w[0] == "blk":
